@@ -3,6 +3,7 @@ import PieModel.Props.C02Once
 import PieModel.Props.C01Full
 import PieModel.Props.C01FullCex
 import PieModel.Props.C02IdemW
+import PieModel.Props.C04Just
 #print axioms PieModel.C02_consistent_memo
 #print axioms PieModel.C02_consistent_memo_sound
 #print axioms PieModel.C02_settled
@@ -39,3 +40,7 @@ import PieModel.Props.C02IdemW
 #print axioms PieModel.fullBody_writeExact_refl
 #print axioms PieModel.idemPie_inv
 #print axioms PieModel.idemPie_session
+#print axioms PieModel.C02_exec_justified_trace
+#print axioms PieModel.C02_exec_justified_trace_all
+#print axioms PieModel.C02_output_trace
+#print axioms PieModel.C02_consistent_not_executed_trace
